@@ -966,6 +966,8 @@ def generic_check(mod, tier, seed):
 def model_matches(mod, c):
     """model = implementation?  A property module may refine this (e.g. compare a history only up to
     the step where the property is already violated)."""
+    if c.op.startswith("det"):
+        return (c.impl or "").startswith("same")      # the model of a det* op is always `same`
     if hasattr(mod, "matches"):
         return mod.matches(c)
     if c.model == "panic" and (c.impl or "").startswith("panic"):
